@@ -270,11 +270,11 @@ def obligations(tier):
     n = 8 if T else 6
     for role in ("client", "server"):
         for cls in ("request", "uni"):
-            obs.append(Ob("C14.split.%s.%s" % (role, cls), split_ob(role, cls, n), shims, enc, bounds="every byte string of length <= %d on a %s stream, every split point, with or without FIN" % (n, cls), env=hm.patched_qpack, budget_s=2400 if T else 280, max_decisions=1500))
+            obs.append(Ob("C14.split.%s.%s" % (role, cls), split_ob(role, cls, n), shims, enc, bounds="every byte string of length <= %d on a %s stream, every split point, with or without FIN" % (n, cls), env=hm.patched_qpack, budget_s=2400 if T else 480, max_decisions=1500))
         m = 6 if T else 5
-        obs.append(Ob("C14.split.%s.request.afterheaders" % role, split_ob(role, "request", m, b"\x01\x02\xe0\x00"), shims, enc, bounds="a HEADERS frame followed by every byte string of length <= %d on a request stream, every split point of the whole, with or without FIN" % m, env=hm.patched_qpack, budget_s=2400 if T else 280, max_decisions=1500))
+        obs.append(Ob("C14.split.%s.request.afterheaders" % role, split_ob(role, "request", m, b"\x01\x02\xe0\x00"), shims, enc, bounds="a HEADERS frame followed by every byte string of length <= %d on a request stream, every split point of the whole, with or without FIN" % m, env=hm.patched_qpack, budget_s=2400 if T else 480, max_decisions=1500))
         if role == "client":
-            obs.append(Ob("C14.split.client.push.afterheaders", split_ob(role, "uni", m, b"\x01\x00\x01\x02\xe0\x00"), shims, enc, bounds="a push stream (type, push id, HEADERS frame) followed by every byte string of length <= %d, every split point of the whole, with or without FIN" % m, env=hm.patched_qpack, budget_s=2400 if T else 280, max_decisions=1500))
-        obs.append(Ob("C14.interleave.%s" % role, interleave_ob(role, 3 if T else 2, 5 if T else 2), shims, enc, bounds="two streams (request + peer unidirectional), every content of length <= %d each, every split, order-preserving interleavings against the sequential one" % (3 if T else 2), env=hm.patched_qpack, budget_s=2400 if T else 280, max_decisions=1500))
+            obs.append(Ob("C14.split.client.push.afterheaders", split_ob(role, "uni", m, b"\x01\x00\x01\x02\xe0\x00"), shims, enc, bounds="a push stream (type, push id, HEADERS frame) followed by every byte string of length <= %d, every split point of the whole, with or without FIN" % m, env=hm.patched_qpack, budget_s=2400 if T else 480, max_decisions=1500))
+        obs.append(Ob("C14.interleave.%s" % role, interleave_ob(role, 3 if T else 2, 5 if T else 2), shims, enc, bounds="two streams (request + peer unidirectional), every content of length <= %d each, every split, order-preserving interleavings against the sequential one" % (3 if T else 2), env=hm.patched_qpack, budget_s=2400 if T else 480, max_decisions=1500))
         obs.append(Ob("C14.roundtrip.%s" % role, roundtrip_ob(role), shims, enc, bounds="headers, optional body of <= 4 symbolic bytes, optional trailers submitted through send_headers/send_data; every split of the resulting stream bytes; header blocks decodable at once or only after the encoder stream delivers", env=hm.patched_qpack, budget_s=900 if T else 280, max_decisions=1500))
     return obs
